@@ -156,7 +156,8 @@ class Endpoint(object):
         self.record(ev, obs)
         if self._modulated:
             self._modulated = False
-            self.record({'e': 'modulate', 'raw': int(self.h._send_segment_size)}, self._collect())
+            if not self.sock.closed:       # the segment size of a closed endpoint is of no consequence
+                self.record({'e': 'modulate', 'raw': int(self.h._send_segment_size)}, self._collect())
 
 
 class Sim(object):
@@ -367,6 +368,11 @@ def diff_trace(ep, model_trace, with_timers=False, project=None):
         keys = SNAP_KEYS + (('ka', 'idle', 'seg') if with_timers else ())
         sa = {k: obs['snap'][k] for k in keys}
         sb = {k: mo['snap'][k] for k in keys}
+        if sa.get('closed') and sb.get('closed'):
+            # what a closed endpoint still holds in its receive buffer is not observable
+            for k in ('rxbuf', 'seg'):
+                sa.pop(k, None)
+                sb.pop(k, None)
         if project:
             a, b, sa, sb = project(a), project(b), sa, sb
         if a != b or sa != sb:
